@@ -13,7 +13,12 @@ import (
 
 const maxInlineInstrs = 60
 
-func (fe *FuncEnc) maxInlineDepth() int { return 2 }
+func (fe *FuncEnc) maxInlineDepth() int {
+	if fe.fc != nil && fe.fc.Shallow {
+		return 0
+	}
+	return 2
+}
 
 // callNames: the names a call site answers to in specs.
 func callNames(c ssa.CallInstruction) []string {
